@@ -60,6 +60,13 @@ impl RegTape {
             .collect()
     }
 
+    /// Verification hook: builds a tape from raw parts (root first, like
+    /// [`RegTape::iter`]); only compiled with `--cfg fidget_verif`
+    #[cfg(fidget_verif)]
+    pub fn verif_from_ops(tape: Vec<RegOp>, slot_count: u32) -> Self {
+        Self { tape, slot_count }
+    }
+
     /// Builds a new empty tape
     pub(crate) fn empty() -> Self {
         Self {
